@@ -182,6 +182,30 @@ func runC06(c *Ctx) {
 						// where that field is read and where the object leaves the function
 						if st, ok := use.(*ssa.Store); ok && st.Val == ex && !errKnownNil(st.Block(), errVal) {
 							if fa, ok := st.Addr.(*ssa.FieldAddr); ok {
+								// … or of an object this function obtained from a helper and hands on only behind the check
+								// (`if golden.SevSnp, err = f(); err != nil { return nil, err }`)
+								if _, isAlloc := fa.X.(*ssa.Alloc); !isAlloc {
+									if _, isCall := fa.X.(*ssa.Call); isCall {
+										for _, u2 := range nonDebugRefs(fa.X) {
+											switch u2 := u2.(type) {
+											case *ssa.FieldAddr:
+												if u2.Field != fa.Field {
+													continue
+												}
+												for _, u3 := range nonDebugRefs(u2) {
+													if ld, ok := u3.(*ssa.UnOp); ok && !errKnownNil(ld.Block(), errVal) {
+														c.S.Bad("R2", construct+":result used before its error is known nil", c.pos(ld.Pos()), "a result of "+cname+" is used on a path where its error has not been found nil")
+													}
+												}
+											case *ssa.Return, *ssa.Call:
+												if st.Block().Dominates(u2.Block()) && !errKnownNil(u2.Block(), errVal) {
+													c.S.Bad("R2", construct+":result used before its error is known nil", c.pos(u2.Pos()), "the object holding a result of "+cname+" leaves the function on a path where its error has not been found nil")
+												}
+											}
+										}
+										continue
+									}
+								}
 								if al, ok := fa.X.(*ssa.Alloc); ok {
 									for _, u2 := range nonDebugRefs(al) {
 										switch u2 := u2.(type) {
@@ -193,6 +217,33 @@ func runC06(c *Ctx) {
 												if ld, ok := u3.(*ssa.UnOp); ok && !errKnownNil(ld.Block(), errVal) {
 													c.S.Bad("R2", construct+":result used before its error is known nil", c.pos(ld.Pos()), "a result of "+cname+" is used on a path where its error has not been found nil")
 												}
+											}
+										case *ssa.Store:
+											if u2.Addr == ssa.Value(al) {
+												continue // the record is overwritten (a named result reset before an error return)
+											}
+											if !errKnownNil(u2.Block(), errVal) {
+												c.S.Bad("R2", construct+":result used before its error is known nil", c.pos(u2.Pos()), "the object holding a result of "+cname+" leaves the function on a path where its error has not been found nil")
+											}
+										case *ssa.UnOp:
+											// the record read whole: fine behind the check, or when it is only returned together with an error
+											if errKnownNil(u2.Block(), errVal) {
+												continue
+											}
+											withErr := true
+											for _, u3 := range nonDebugRefs(u2) {
+												ret, isRet := u3.(*ssa.Return)
+												if !isRet {
+													withErr = false
+													continue
+												}
+												last := ret.Results[len(ret.Results)-1]
+												if k, isK := last.(*ssa.Const); isK && k.IsNil() {
+													withErr = false
+												}
+											}
+											if !withErr {
+												c.S.Bad("R2", construct+":result used before its error is known nil", c.pos(u2.Pos()), "the object holding a result of "+cname+" leaves the function on a path where its error has not been found nil")
 											}
 										default:
 											if !errKnownNil(u2.Block(), errVal) {
@@ -1021,7 +1072,62 @@ func runC06(c *Ctx) {
 				}
 			}
 			if len(stores) == 0 {
-				continue // written in a helper or through a literal: R4 covers existence and source
+				// written by an unexported helper that builds the document (imageProvenance()): the store dominates the
+				// helper's returns and the helper's call dominates GoldenMeasurement's successful returns
+				okHelper := false
+				for _, rf := range unexportedRegion(gm) {
+					if rf == gm {
+						continue
+					}
+					var hst []*ssa.Store
+					for _, b := range rf.Blocks {
+						for _, in := range b.Instrs {
+							if st, ok := in.(*ssa.Store); ok {
+								if fa, ok := st.Addr.(*ssa.FieldAddr); ok && flow.FieldName(fa) == fname && namedIs(fa.X.Type(), epbPkg, "VMGoldenMeasurement") {
+									hst = append(hst, st)
+								}
+							}
+						}
+					}
+					if len(hst) == 0 {
+						continue
+					}
+					domRets := true
+					for _, b := range rf.Blocks {
+						if _, isRet := b.Instrs[len(b.Instrs)-1].(*ssa.Return); isRet {
+							d := false
+							for _, st := range hst {
+								if st.Block().Dominates(b) {
+									d = true
+								}
+							}
+							if !d {
+								domRets = false
+							}
+						}
+					}
+					callDom := false
+					ei := errIndex(gm.Signature)
+					for _, call := range callsIn(gm, func(call ssa.CallInstruction) bool { return call.Common().StaticCallee() == rf }) {
+						all := true
+						for _, b := range gm.Blocks {
+							if ret, isRet := b.Instrs[len(b.Instrs)-1].(*ssa.Return); isRet && ei >= 0 {
+								if k, isK := ret.Results[ei].(*ssa.Const); isK && k.IsNil() && !call.(ssa.Instruction).Block().Dominates(b) {
+									all = false
+								}
+							}
+						}
+						if all {
+							callDom = true
+						}
+					}
+					if domRets && callDom {
+						okHelper = true
+					}
+					nV++
+					c.S.Check(okHelper, "R13", "endorse.GoldenMeasurement:"+fname+" stored unconditionally", c.pos(hst[0].Pos()), fname+" is stored on every path (in "+rf.Name()+", called on every successful path)", "VMGoldenMeasurement."+fname+" is stored only on some paths to a successful return: for some requests the value the caller named is silently left out of the signed document")
+				}
+				continue
 			}
 			nV++
 			ei := errIndex(gm.Signature)
